@@ -40,6 +40,8 @@
 // skips D2/D3 (tools/c20_calibrate.py aggregates into calib/C20.json).
 #include "c05_common.hpp"
 #include "siggen.hpp"
+#define VP_REF_SAME_ARITH 1   // in the fixed-point variant the frozen fixed-point decoder is the reference
+#include "refapi.h"
 
 using namespace vp;
 
@@ -169,6 +171,10 @@ int vp_case(Choice& c, Report& rep) {
   VP_REQUIRE(decA.p && err == OPUS_OK, "c20:decoder-create", "err=%d", err);
   decB.p = opus_decoder_create(Fs, ch, &err);
   VP_REQUIRE(decB.p && err == OPUS_OK, "c20:decoder-create", "err=%d", err);
+  // frozen decoders fed the identical call sequences (packets as given / DTX packets as losses): reference for the onset after a gap
+  struct RefDec { OpusDecoder* p = nullptr; ~RefDec() { if (p) ref_opus_decoder_destroy(p); } } refA, refB;
+  refA.p = ref_opus_decoder_create(Fs, ch, &err); refB.p = ref_opus_decoder_create(Fs, ch, &err);
+  VP_REQUIRE(refA.p && refB.p, "c20:decoder-create", "frozen decoder create failed (%d)", err);
 #define CTL(req) do { int r_ = opus_encoder_ctl(enc.p, req); VP_REQUIRE(r_ == OPUS_OK, "c20:ctl-result", "ctl returned %d", r_); } while (0)
   CTL(OPUS_SET_COMPLEXITY(complexity));
   CTL(OPUS_SET_DTX(dtx));
@@ -196,7 +202,7 @@ int vp_case(Choice& c, Report& rep) {
 
   // ---- run ----------------------------------------------------------------
   std::vector<int> plen(nframes), pdtx(nframes);
-  std::vector<float> outA(nsamp * ch), outB(nsamp * ch);
+  std::vector<float> outA(nsamp * ch), outB(nsamp * ch), outRA(nsamp * ch), outRB(nsamp * ch);
   HeapBuf<float> fin((size_t)fs * ch); HeapBuf<opus_int16> sin_((size_t)fs * ch);
   HeapBuf<float> dout((size_t)fs * ch);
   int n_mode[3] = {0, 0, 0};
@@ -229,9 +235,39 @@ int vp_case(Choice& c, Report& rep) {
     if (dr != fs) return rep.fail("c20:decode-duration", "decoder (DTX packets as losses) returned %d for frame %d (%d bytes, %d samples)", dr, i, len, fs);
     if (!all_finite(dout.p, (size_t)fs * ch)) return rep.fail("c20:decoder-left-samples-unwritten", "decoder (DTX packets as losses): frame %d (%d bytes, %d samples x %d channels) returned %d but left samples unwritten / non-finite", i, len, fs, ch, dr);
     memcpy(outB.data() + (size_t)i * fs * ch, dout.p, sizeof(float) * (size_t)fs * ch);
+    (void)ref_opus_decode_float(refA.p, pkt.p, len, outRA.data() + (size_t)i * fs * ch, fs, 0);
+    if (len <= 2) (void)ref_opus_decode_float(refB.p, nullptr, 0, outRB.data() + (size_t)i * fs * ch, fs, 0);
+    else (void)ref_opus_decode_float(refB.p, pkt.p, len, outRB.data() + (size_t)i * fs * ch, fs, 0);
     rep.count(2);
   }
   if (!all_finite(outA.data(), outA.size()) || !all_finite(outB.data(), outB.size())) return rep.fail("c20:decode-nonfinite", "decoded audio not finite");
+
+  // D4 onset after a gap, relative to the frozen decoder fed the identical calls: in the first 40 ms of audio after a run of DTX packets
+  // (decoded from concealment / comfort-noise state: glue-frame fade-in, energy prediction after loss, LTP re-sync) every 5 ms window in which
+  // the frozen decoder carries signal (rms >= 2e-3) must hold between 0.4x and 2.5x of its energy (+-4 dB).  On the unchanged tree the two
+  // decoders differ only by summation order (SIMD vs C).  One-sided towards "the tree behaves like the frozen codec": what normal audio after
+  // a gap is, is taken from the frozen decoder, not from a bound of our own (seeded defect C20-6: fade-in slope of silk_PLC_glue_frames
+  // no longer steepened, onset 6.5 dB low between 5 and 12.5 ms).
+  {
+    const int w5 = Fs / 200; int checked = 0;
+    for (int i = 1; i < nframes; i++) {
+      if (!(plen[i] > 2 && plen[i - 1] <= 2)) continue;
+      const size_t a0 = (size_t)i * fs, a1 = std::min((size_t)nsamp, a0 + (size_t)Fs / 25);
+      for (int d = 0; d < 2; d++) {
+        const std::vector<float>& yt = d ? outB : outA; const std::vector<float>& yr = d ? outRB : outRA;
+        for (size_t a = a0; a + w5 <= a1; a += w5) {
+          double et = 0, er = 0;
+          for (size_t k = a * ch; k < (a + w5) * ch; k++) { et += (double)yt[k] * yt[k]; er += (double)yr[k] * yr[k]; }
+          if (er < 4e-6 * w5 * ch) continue;
+          checked++;
+          if (et < 0.4 * er || et > 2.5 * er)
+            return rep.fail("c20:onset-after-gap-differs-from-frozen", "decoder fed %s: %d-%d ms after the DTX run that ends at packet %d the decoded energy is %.1f dB relative to the frozen decoder on the same calls (rms %.4f vs %.4f)",
+                            d ? "DTX packets as losses" : "the packets as given", (int)((a - a0) * 1000 / Fs), (int)((a - a0 + w5) * 1000 / Fs), i, 10 * std::log10((et + 1e-30) / er), std::sqrt(et / (w5 * ch)), std::sqrt(er / (w5 * ch)));
+        }
+      }
+    }
+    if (checked) rep.label("onset-vs-frozen-checked");
+  }
 
   if (getenv("C20_DUMP")) {   // debugging aid: per-packet length, IN_DTX, input / decoded rms
     for (int i = 0; i < nframes; i++) {
